@@ -1049,4 +1049,123 @@ theorem finish_fields {e : Ext} {st : St} {tmpl : Option Str} {spec : FormatSpec
       refine ⟨hd, ha, rfl, rfl, ?_, ?_⟩ <;> intro dd hdd kv hkv <;> simp at hdd <;> (try (subst hdd; exact hkv))
     · cases h
 
+/-! ### accepted strings, forward direction: a name that is not reserved is recorded as a capture AT ITS POSITION -/
+
+theorem skip_reserved {n : Str} (h : isSkipName n) : n ∈ FmtTables.RESERVED_NAMES := by
+  rcases h with rfl | rfl <;> decide
+
+/-- the step for a name that is not reserved appends `(name, idx)` to the captures and touches nothing else -/
+theorem step_custom {e : Ext} {idx : Nat} {st st' : St} {t : RawTok} (h : Impl.step e idx st t = .ok st')
+    (hres : e.lower t.name ∉ FmtTables.RESERVED_NAMES) :
+    st'.customs = st.customs ++ [(e.lower t.name, idx)] ∧ st'.fields = st.fields := by
+  unfold Impl.step at h
+  simp only [Bool.or_eq_true, decide_eq_true_eq, List.contains_eq_mem] at h
+  by_cases hskip : e.lower t.name = sUnderscore ∨ e.lower t.name = sStar
+  · exact absurd (skip_reserved hskip) hres
+  · rw [if_neg hskip, if_neg hres] at h
+    by_cases hdup : e.lower t.name ∈ keys st.customs
+    · rw [if_pos hdup] at h; cases h
+    · rw [if_neg hdup] at h; cases h; exact ⟨rfl, rfl⟩
+
+/-- no step removes or moves a recorded capture -/
+theorem step_customs_mono {e : Ext} {idx : Nat} {st st' : St} {t : RawTok} (h : Impl.step e idx st t = .ok st') :
+    ∀ kv, kv ∈ st.customs → kv ∈ st'.customs := by
+  intro kv hkv
+  rcases step_ok h with ⟨_, rfl⟩ | ⟨_, _, _, _, hc⟩ | ⟨_, hr, _, _, _⟩
+  · exact hkv
+  · rw [hc]; exact hkv
+  · rw [(step_custom h hr).1]; exact List.mem_append_left _ hkv
+
+theorem loop_customs_mono {e : Ext} : ∀ (parts : List Str) {idx : Nat} {st st' : St},
+    Impl.loop e idx st parts = .ok st' → ∀ kv, kv ∈ st.customs → kv ∈ st'.customs := by
+  intro parts
+  induction parts with
+  | nil => intro idx st st' h; cases h; exact fun _ h => h
+  | cons p R ih =>
+    intro idx st st' h kv hkv
+    obtain ⟨t, st1, _, hs, hl⟩ := loop_ok_cons h
+    exact ih hl kv (step_customs_mono hs kv hkv)
+
+/-- piece `j` reads a name that is not reserved ⇒ `(name, idx + j)` is among the final captures -/
+theorem loop_records_at {e : Ext} : ∀ (parts : List Str) {idx : Nat} {st st' : St},
+    Impl.loop e idx st parts = .ok st' →
+    ∀ j n, NamedAt e parts j n → n ∉ FmtTables.RESERVED_NAMES → (n, idx + j) ∈ st'.customs := by
+  intro parts
+  induction parts with
+  | nil => intro idx st st' _ j n ⟨p, hp, _⟩; simp at hp
+  | cons q R ih =>
+    intro idx st st' h j n ⟨p, hp, hn⟩ hres
+    obtain ⟨t, st1, hm, hs, hl⟩ := loop_ok_cons h
+    cases j with
+    | zero =>
+      simp at hp; subst hp
+      have hname : e.lower t.name = n := by simpa [tokName, hm] using hn
+      have hc := (step_custom hs (by rw [hname]; exact hres)).1
+      apply loop_customs_mono R hl
+      rw [hc, hname]; simp
+    | succ j =>
+      have hp' : R[j]? = some p := by simpa using hp
+      have := ih hl j n ⟨p, hp', hn⟩ hres
+      have e1 : idx + (j + 1) = idx + 1 + j := by omega
+      rw [e1]; exact this
+
+/-- how `finish` hands the captures over: with a `description` column they are the extra fields (and there are no template
+captures); without one they are the template captures (and there are no extra fields, no description column) -/
+theorem finish_customs {e : Ext} {st : St} {tmpl : Option Str} {spec : FormatSpec}
+    (h : Impl.finish e st tmpl = .ok spec) :
+    (sDescription ∈ keys st.fields → spec.customCaptures = none ∧ (st.customs ≠ [] → spec.extraFields = some st.customs)) ∧
+    (sDescription ∉ keys st.fields →
+      spec.descriptionColumn = none ∧ spec.extraFields = none ∧ spec.customCaptures = some st.customs) := by
+  unfold Impl.finish at h
+  by_cases hD : sDescription ∈ keys st.fields <;> cases hC : st.customs.isEmpty <;>
+    cases hT : Impl.tmplAbsent tmpl <;> simp [hD, hC, hT] at h
+  case pos.false.false =>
+    split at h
+    · cases h
+    split at h
+    · cases h
+    split at h
+    · cases h
+      exact ⟨fun _ => ⟨by simp, fun _ => rfl⟩, fun hn => absurd hD hn⟩
+    · cases h
+  case pos.false.true =>
+    split at h
+    · cases h
+    split at h
+    · cases h
+      exact ⟨fun _ => ⟨by simp, fun _ => rfl⟩, fun hn => absurd hD hn⟩
+    · cases h
+  case pos.true.false =>
+    split at h
+    · cases h
+    split at h
+    · cases h
+    split at h
+    · cases h
+      have hnil : st.customs = [] := by simpa using hC
+      exact ⟨fun _ => ⟨by simp, fun hne => absurd hnil hne⟩, fun hn => absurd hD hn⟩
+    · cases h
+  case pos.true.true =>
+    split at h
+    · cases h
+    split at h
+    · cases h
+      have hnil : st.customs = [] := by simpa using hC
+      exact ⟨fun _ => ⟨by simp, fun hne => absurd hnil hne⟩, fun hn => absurd hD hn⟩
+    · cases h
+  case neg.false.false =>
+    split at h
+    · cases h
+    split at h
+    · cases h
+    split at h
+    · rename_i d a hd ha
+      cases h
+      refine ⟨fun hp => absurd hp hD, fun _ => ⟨?_, rfl, ?_⟩⟩
+      · cases hl : lookup sDescription st.fields with
+        | none => rfl
+        | some v => exact absurd (by simpa [keys] using List.mem_map_of_mem (f := Prod.fst) (lookup_mem hl)) hD
+      · simp
+    · cases h
+
 end TallyVerif.Fmt
